@@ -5,7 +5,10 @@ from pyvc import run
 eng = Engine().load()
 pats = [a for a in sys.argv[1:] if not a.startswith("-")]
 results = []
-for key, c in eng.contracts.by_key.items():
+allc = list(eng.contracts.by_key.items()) + [(("<lemma>", n, "default"), c) for n, c in eng.contracts.lemmas.items()]
+for key, c in allc:
+    if c.trusted:
+        continue
     name = f"{key[0]}:{key[1]}[{key[2]}]"
     if pats and not any(p in name for p in pats):
         continue
